@@ -516,6 +516,31 @@ def main(chk):
       chk.violation('C18:ToNNX:user-defined-box', f'calls return {outs}, the Linen module {want}; metadata {w.w.get_metadata()}; type of c {type(w.c).__name__}', {})
   except Exception as e:
     chk.violation('C18:ToNNX:user-defined-box', f'raised {type(e).__name__}: {str(e)[:200]}', {})
+  # a failing (caught) call of a bridge.Module compact method leaves nothing behind: wrappers used afterwards behave as before
+  chk.count('C18:bridge.Module:failed-compact-call')
+  try:
+    class BFail(bridge.Module):
+      @bridge.compact
+      def __call__(self, x):
+        w = bridge.linen_in_bridge_mdl(nn.Dense(3), name='lin')(x)
+        raise KeyError('user code failed inside a compact method')
+    lone = bridge.ToNNX(nn.Dense(3), rngs=nnx.Rngs(0))
+    bridge.lazy_init(lone, jnp.ones((2, 4)))
+    before = np.asarray(lone(jnp.ones((2, 4))))
+    for _ in range(2):
+      try:
+        BFail().init(jax.random.key(0), jnp.ones((2, 4)))
+      except KeyError:
+        pass
+    after = np.asarray(lone(jnp.ones((2, 4))))
+    bn = bridge.ToNNX(nn.BatchNorm(use_running_average=False), rngs=nnx.Rngs(0))
+    bridge.lazy_init(bn, jnp.ones((2, 4)))
+    bn(jnp.ones((2, 4)), mutable=['batch_stats'])
+    if not np.array_equal(before, after):
+      chk.violation('C18:bridge.Module:failed-compact-call', 'a ToNNX wrapper returns another result after an unrelated bridge.Module call failed', {})
+  except Exception as e:
+    chk.violation('C18:bridge.Module:failed-compact-call', f'after a failed (caught) compact call of a bridge.Module, stand-alone ToNNX wrappers raise '
+                                                           f'{type(e).__name__}: {str(e)[:160]}', {})
   # a failing lazy_init leaves an initialised wrapper as it was (a stuttering step of the specification)
   chk.count('C18:ToNNX:failed-lazy_init')
   try:
